@@ -80,7 +80,7 @@ def build_job(job, wd):
     t0 = time.time()
     with LL2C_LOCK:
         try:
-            ll2c.OPTS['narrow'] = job.get('narrow', 0)
+            ll2c.OPTS['narrow'] = job.get('narrow', 0); ll2c.OPTS['noop'] = job.get('noop', []); ll2c.OPTS['unreachable'] = job.get('unreachable', [])
             mod = ll2c.parse_module(open(ll).read())
             roots = job.get('roots') or [n for n in mod.forder if not re.match(r'@_Z|@__|@_GLOBAL', n)]
             csrc, ext = ll2c.translate(mod, roots)
